@@ -4,25 +4,34 @@
     path with panic capture, the wake handler; mutex + condvar as SC lock + wait set, check-and-wait atomic).
     The executable monitor [C14_ok] (coq/W/Monitors.v) states the full property on traces and is
     evaluated on the REAL traces by the check.  Proved here, for every script, number of threads/pipes and
-    schedule (invariants [RvInv], [PqInv] of coq/W/Pipe.v): a blocked recv is never left sleeping, no reply is
-    stranded, the reply wake-up reaches the pipe's own live handler.  See docs/layer_w.md for what is missing. *)
+    schedule: the monitor itself on every model run ([C14_trace]), and (invariants [RvInv], [PqInv] of coq/W/Pipe.v)
+    a blocked recv is never left sleeping, no reply is stranded, the reply wake-up reaches the pipe's own live handler. *)
 From Coq Require Import ZArith List Bool.
-From Stk Require Import Lib.U Gen.SrcWaker W.Waker W.WakerCore W.WakerRefine W.WakerProofs W.WakerGhost W.Pipe W.Monitors W.MonC14.
+From Stk Require Import Lib.U Gen.SrcWaker W.Waker W.WakerCore W.WakerRefine W.WakerProofs W.WakerGhost W.Pipe W.Monitors W.MonC14 W.MonC14b.
 Import ListNotations.
 Local Open Scope Z_scope.
 
-(* FULL STATEMENT (trace form, not closed):
-   forall scr sched, C14_ok (flatten (wtrace scr sched)) false = true
-   (exactly-once in-order traffic both ways; fwd_term exactly once, after all messages, with the panic flag;
-   results of recv/send/cancel after the drop).  Both queues are FIFO lists appended and taken under the mutex;
-   what is proved below is that neither side can be left waiting, and (C14_replies_partial) the half of the
-   monitor that concerns the replies and the termination notice. *)
+(** FULL STATEMENT, trace form: the executable monitor [C14_ok] (coq/W/Monitors.v; the one the check evaluates on the
+    REAL traces) is true on the trace of EVERY run of the model: all scripts, all numbers of threads and pipes, all
+    schedules.  [C14_ok]: what [recv] returns to a worker is a prefix of what the main thread sent to its pipe, in
+    order, nothing invented or duplicated; what [fwd_recv] gets is a prefix of what the worker sent, in order;
+    nothing is forwarded after [fwd_term]; [fwd_term] at most once per pipe, with [panicked] = the worker ran
+    [panic]; a [recv] / [send] / [cancel] that begins after the [PipedThread] was dropped answers
+    None / false / true; in a quiescent state every worker [send] that returned has been forwarded and every worker
+    that exited has had its [fwd_term].  Hypothesis [pnew_ok]: the [pnew] commands of the run name non-negative
+    pipes (negative ids mean "no pipe" in the harness and the model).  Proof: coq/W/MonC14.v (relation [ERel]: the
+    replies / termination half), coq/W/MonC14b.v (relation [FRel]: the half checked at command returns; [bad_split]
+    and [wrun_EF]: the monitor's own step function never raises the flag). *)
+Theorem C14_trace : forall scr sched,
+  pnew_ok (flatten (wtrace scr sched)) -> C14_ok (flatten (wtrace scr sched)) false = true.
+Proof. exact C14_monitor. Qed.
+Print Assumptions C14_trace.
 
-(** PROVED PART of the trace form.  [C14r_ok] (coq/W/MonC14.v) is [C14_ok] for runs that are not aborted, over the
+(** The replies / termination half on its own (used by [C14_trace]).  [C14r_ok] (coq/W/MonC14.v) is [C14_ok] for runs that are not aborted, over the
     step function [m14r_step]: every field of the monitor state is computed by the monitor's own [m14_step]; the flag
     is raised only by the checks made at [EFwdRecv] and [ETerm] events (the checks made at command returns - order of
     [recv] against the sends of the main thread, answers of [recv]/[send]/[cancel] after the drop - keep the old
-    flag; they are the part that is NOT proved).  On every run of the model - all scripts, threads, pipes, schedules:
+    flag).  On every run of the model - all scripts, threads, pipes, schedules:
     what [fwd_recv] gets for pipe [p] is at every moment a prefix of the replies the worker of [p] queued with
     [send], in order, nothing invented, nothing twice; nothing is forwarded for [p] after its [fwd_term];
     [fwd_term] is called at most once per pipe, with [panicked] = the worker ran [panic]; and in a quiescent state
